@@ -283,7 +283,8 @@ pub fn ev_iter<K: Kmer + Send + Sync>(sink: &Sink, r: &mut Rng, inp: &GInput, no
                 if r.chance(1, 3) {
                     calls.push((false, 0));
                 } else {
-                    let m = *r.pick(&[0usize, 1, 2, 3, 4, 5, 6, 7, nk.saturating_sub(1), nk, nk + 1, nk + 7, nk / 2]);
+                    // (usize::MAX and its neighbours: position + skip must not be computed with wrapping arithmetic)
+                    let m = *r.pick(&[0usize, 1, 2, 3, 4, 5, 6, 7, nk.saturating_sub(1), nk, nk + 1, nk + 7, nk / 2, usize::MAX, usize::MAX - 1, usize::MAX - nk, usize::MAX / 2 + 1]);
                     calls.push((true, m));
                 }
             }
@@ -295,7 +296,8 @@ pub fn ev_iter<K: Kmer + Send + Sync>(sink: &Sink, r: &mut Rng, inp: &GInput, no
     for (ni, calls) in plans {
         let desc = json!({"op":"iter","K":k,"st":inp.stranded,"s":nodes[ni].s,"node":ni,"nnodes":nodes.len(),
             "next_s": if ni + 1 < nodes.len() { json!(nodes[ni+1].s) } else { json!([]) },
-            "calls": calls.iter().map(|c| if c.0 { json!(["nth", c.1]) } else { json!(["next"]) }).collect::<Vec<_>>(),
+            // skips beyond 10^9 are logged as 10^9 (TLC integers are 32 bit; any skip >= the node's k-mer count means the same)
+            "calls": calls.iter().map(|c| if c.0 { json!(["nth", std::cmp::min(c.1, 1_000_000_000)]) } else { json!(["next"]) }).collect::<Vec<_>>(),
             "fam":inp.fam,"reads":inp.reads});
         let case = sink.begin_case(&desc);
         let res = guard(|| {
